@@ -16,7 +16,7 @@
    reads the table off the sources of the tree under test (go/ast, harness op "sites") on every
    run, so the model follows the code.  Level B are the byte-level receive functions of
    Model/Frame.v (C12); Proofs/LimitProofs.v shows that level A is their projection. *)
-From Coq Require Import List ZArith Bool Init.Byte Strings.Byte String.
+From Coq Require Import List ZArith Bool Init.Byte Strings.Byte.
 From HV Require Import Lib.Crc32 Model.Frame.
 Import ListNotations.
 Open Scope Z_scope.
@@ -203,7 +203,10 @@ Definition pinned_guard (tr : transport) (decl : option Z) (sent : Z) : bool :=
 (* ---- the way back: what the server answers and what the client makes of it ---------------- *)
 
 (* core.RequestEntityTooLarge *)
-Definition too_large_text : list byte := list_byte_of_string "Request entity too large".
+(* spelled out byte by byte so that the extracted code does not drag in Coq's String module;
+   too_large_text_spelling in the proofs: it is list_byte_of_string "Request entity too large" *)
+Definition too_large_text : list byte :=
+  ["R"; "e"; "q"; "u"; "e"; "s"; "t"; " "; "e"; "n"; "t"; "i"; "t"; "y"; " "; "t"; "o"; "o"; " "; "l"; "a"; "r"; "g"; "e"]%byte.
 
 Inductive reply :=
 | RpResult                                  (* whatever Service.Handle returned *)
